@@ -424,6 +424,7 @@ Definition clauses (cfg : word) (ops obs : list word) : list (Z * Z * bool) :=
   match cfg with
   | [0; c] => held_clauses c 0 0 obs
   | [2; _; w] => srv_clauses (w =? 1) evs0 0 obs
+  | 5 :: _ => srv_clauses false evs0 0 obs    (* raw HTTP/2 client scenario: acceptor only *)
   | 1 :: c :: n :: _ => match obs with
                    | [[c'; mx; dn]] => [(2, 0, (c' =? c) && (mx <=? c)); (3, 0, dn =? n)]
                    | _ => [(0, 0, false)]
@@ -436,6 +437,6 @@ Definition holds_b (cfg : word) (ops obs : list word) : bool :=
 
 Definition check_case (c : case) : verdict :=
   match c_cfg c with
-  | 1 :: _ => decide (Some (c_obs c)) (c_obs c) (clauses (c_cfg c) (c_ops c) (c_obs c))
+  | 1 :: _ | 5 :: _ => decide (Some (c_obs c)) (c_obs c) (clauses (c_cfg c) (c_ops c) (c_obs c))
   | _ => decide (run (c_cfg c) (c_ops c)) (c_obs c) (clauses (c_cfg c) (c_ops c) (c_obs c))
   end.
